@@ -26,6 +26,9 @@ ASSUMPTIONS = [
 SWEEP_DOC = c01.SWEEP_DOC
 
 
+_PICKLED = {}
+
+
 def check_diff(case, ctx):
     spec, read = case["adapter"], case["read"]
     try:
@@ -47,6 +50,22 @@ def check_diff(case, ctx):
     sn = gen.norm_seq(spec["seq"])
     if len(read) < len(sn):
         ctx.label("read-shorter-than-adapter")
+    # an adapter that went through pickle (worker processes under the 'spawn' start method) is the same
+    # adapter configuration: its prefilter must not change the result either
+    import pickle
+
+    key = c01.canon_key(spec)
+    c = _PICKLED.get(key)
+    if c is None:
+        if len(_PICKLED) > 2000:
+            _PICKLED.clear()
+        c = _PICKLED[key] = pickle.loads(pickle.dumps(a))
+    t3 = c02.tup(c.match_to(read))
+    if t3 != t2:
+        raise Violation(
+            f"{spec['type']} adapter {spec['seq']!r} e={spec['e']} o={spec['o']} aw={spec['aw']} rw={spec['rw']} "
+            f"indels={spec['indels']} read={read!r}: after a pickle round trip the adapter (with its prefilter) finds "
+            f"{t3}, alignment alone {t2}", observed=t3, expected=t2)
     if t1 != t2:
         present = a.kmer_finder.kmers_present(read[::-1] if spec["type"].startswith("rightmost") else read)
         raise Violation(
